@@ -168,6 +168,14 @@ func gen(rt *rapid.T) plan {
 			budget += float64(s.DelayNs) + 1.2*500e6 + 200e6
 			r.Script = append(r.Script, s)
 		}
+		if big && len(r.Script) > 2 {
+			// Later attempts use the default script (drain, reply, OK): a
+			// retry attempt that neither reads nor ever answers would leave
+			// the replay blocked on flow control with the stream mutex held,
+			// which (separate finding, notes/C11.md) also blocks the deadline
+			// watcher and freezes the bubble.
+			r.Script = r.Script[:2]
+		}
 		if big && len(r.Script) >= 2 {
 			// attempt 0 drains and fails (noticed in Recv); attempt 1 fails
 			// after a delay without reading, while the replay is blocked
